@@ -1,3 +1,4 @@
+import NasimModel.Generated.GeneratorOk
 import NasimModel.Proofs.GenInv
 import NasimModel.Proofs.GenHosts
 import NasimModel.Proofs.GenFirewall
